@@ -118,7 +118,7 @@ package placement
 
 // A strictly better combination for rule `index` invalidates everything recorded for later rules before they are re-fitted.
 //@ func (*fitWorker).compareBest
-//@   props C12
+//@   props C12 C10
 //@   requires wfWorker(w) && 0 <= index && index < len(w.rules)
 //@   ensures [no-leaked-selection] forall fp *fitPeer :: allocated(fp) && old(allocated(fp)) && fp.selected ==> old(fp.selected)
 //@   ensures [wf] wfWorker(w)
